@@ -1,6 +1,7 @@
 package eng
 
 import (
+	"go/types"
 	"go/ast"
 	"go/token"
 	"sort"
@@ -63,6 +64,16 @@ func (p *Prog) SetKnown(known map[string]bool) {
 						cl, isCall := r.(*ssa.Call)
 						if isCall {
 							if lf, lmc := hofLiteral(cl); lf == f && lmc == mc {
+								viaHOF = true
+								continue
+							}
+							applied := false
+							for _, hm := range p.helperLiterals(cl) {
+								if hm == mc {
+									applied = true
+								}
+							}
+							if applied {
 								viaHOF = true
 								continue
 							}
@@ -307,6 +318,11 @@ func Instrs(fn *ssa.Function, f func(ssa.Instruction)) {
 					if callee := EffCallee(c); callee != nil && callee != fn && deepProg.transparent[callee] {
 						rec(callee, d+1)
 					}
+					for _, mc := range deepProg.helperLiterals(c) {
+						if lit := mc.Fn.(*ssa.Function); deepProg.transparent[lit] {
+							rec(lit, d+1)
+						}
+					}
 				}
 			}
 		}
@@ -375,7 +391,7 @@ func (p *Prog) Anchors(fn *ssa.Function) []*ssa.Function {
 		for _, caller := range p.allMod {
 			calls := false
 			InstrsShallow(caller, func(in ssa.Instruction) {
-				if c, ok := in.(*ssa.Call); ok && EffCallee(c) == g {
+				if c, ok := in.(*ssa.Call); ok && (EffCallee(c) == g || p.appliesLiteral(c, g)) {
 					calls = true
 				}
 			})
@@ -398,7 +414,7 @@ func (p *Prog) StaticCallSites(fn *ssa.Function) []*ssa.Call {
 	var out []*ssa.Call
 	for _, caller := range p.AllModFuncs() {
 		InstrsShallow(caller, func(in ssa.Instruction) {
-			if c, ok := in.(*ssa.Call); ok && EffCallee(c) == fn {
+			if c, ok := in.(*ssa.Call); ok && (EffCallee(c) == fn || p.appliesLiteral(c, fn)) {
 				out = append(out, c)
 			}
 		})
@@ -614,6 +630,11 @@ func InstrsCtx(fn *ssa.Function, f func(in ssa.Instruction, stack []*ssa.Call)) 
 					if callee := EffCallee(c); callee != nil && callee != fn && deepProg.transparent[callee] {
 						rec(callee, append(append([]*ssa.Call(nil), stack...), c))
 					}
+					for _, mc := range deepProg.helperLiterals(c) {
+						if lit := mc.Fn.(*ssa.Function); deepProg.transparent[lit] {
+							rec(lit, append(append([]*ssa.Call(nil), stack...), c))
+						}
+					}
 				}
 			}
 		}
@@ -681,11 +702,78 @@ func Canon(v ssa.Value) ssa.Value {
 		}
 		st := localSingleStore(ld)
 		if st == nil {
+			st = cellSingleStore(ld)
+		}
+		if st == nil {
 			return v
 		}
 		v = st.Val
 	}
 	return v
+}
+
+// cellSingleStore: ld loads a local or captured variable whose address goes
+// nowhere and that is assigned at exactly one place in its owner and all the
+// literals capturing it - before the load in the same function, in an
+// enclosing function (the value a literal finds when it runs), or in a literal
+// applied on the spot (`withLock(func() { v, ok = m[k] })`) by a call that
+// comes before the load. Returns that store.
+func cellSingleStore(ld *ssa.UnOp) *ssa.Store {
+	p := deepProg
+	if p == nil || ld.Op != token.MUL {
+		return nil
+	}
+	var root *ssa.Alloc
+	switch a := ld.X.(type) {
+	case *ssa.Alloc:
+		root = a
+	case *ssa.FreeVar:
+		root = p.Census().Root(a)
+	}
+	if root == nil || p.Census().Escaped(root) {
+		return nil
+	}
+	var st *ssa.Store
+	n := 0
+	for _, s := range p.allocStores(root) {
+		if self, ok := s.Val.(*ssa.UnOp); ok && self.Op == token.MUL && p.CellID(self.X) == allocID(root) {
+			continue
+		}
+		st = s
+		n++
+	}
+	if n != 1 {
+		return nil
+	}
+	switch {
+	case st.Parent() == ld.Parent():
+		if !dominatesLocal(st, ld) {
+			return nil
+		}
+	case p.transparent[st.Parent()] && st.Parent().Parent() != nil:
+		// assigned in an applied literal: every application comes before the load
+		sites := p.sitesOf(st.Parent())
+		if len(sites) == 0 {
+			return nil
+		}
+		for _, site := range sites {
+			if !Dominates(site, ld) {
+				return nil
+			}
+		}
+	default:
+		// assigned in a function enclosing the one that loads it
+		enc := false
+		for e := p.Encloser(ld.Parent()); e != nil; e = p.Encloser(e) {
+			if e == st.Parent() {
+				enc = true
+			}
+		}
+		if !enc {
+			return nil
+		}
+	}
+	return st
 }
 
 // localSingleStore: ld loads a local that does not escape and is assigned
@@ -713,6 +801,13 @@ func localSingleStore(ld *ssa.UnOp) *ssa.Store {
 			st = x
 			n++
 		case *ssa.UnOp:
+		case *ssa.MakeClosure:
+			// captured by a literal (go/ssa then keeps even a parameter in a
+			// cell): still the one value, as long as no literal assigns it
+			// and its address goes nowhere else
+			if deepProg == nil || deepProg.Census().CellStoredByClosure(al) {
+				return nil
+			}
 		default:
 			return nil
 		}
@@ -911,3 +1006,115 @@ func EffCallee(c *ssa.Call) *ssa.Function {
 
 // AppliedByHOF reports whether fn is a literal applied through a predicate HOF.
 func (p *Prog) AppliedByHOF(fn *ssa.Function) bool { return p.hofApplied[fn] }
+
+// callOnlyParam: q is a function-typed parameter that its function does
+// nothing with but call it (directly, or from a cell go/ssa keeps it in).
+func callOnlyParam(q *ssa.Parameter) bool {
+	if _, isSig := q.Type().Underlying().(*types.Signature); !isSig {
+		return false
+	}
+	okUse := func(v ssa.Value) bool {
+		for _, r := range Referrers(v) {
+			c, isCall := r.(*ssa.Call)
+			if !isCall || c.Call.Value != v {
+				return false
+			}
+			for _, a := range c.Call.Args {
+				if a == v {
+					return false
+				}
+			}
+		}
+		return true
+	}
+	for _, r := range Referrers(q) {
+		switch x := r.(type) {
+		case *ssa.Call:
+			if x.Call.Value != ssa.Value(q) {
+				return false
+			}
+			for _, a := range x.Call.Args {
+				if a == ssa.Value(q) {
+					return false
+				}
+			}
+		case *ssa.Store:
+			// spilled to a local cell: every load of the cell is only called
+			al, isAl := x.Addr.(*ssa.Alloc)
+			if !isAl || x.Val != ssa.Value(q) {
+				return false
+			}
+			for _, r2 := range Referrers(al) {
+				switch y := r2.(type) {
+				case *ssa.Store:
+					if y != x {
+						return false
+					}
+				case *ssa.UnOp:
+					if !okUse(y) {
+						return false
+					}
+				default:
+					return false
+				}
+			}
+		default:
+			return false
+		}
+	}
+	return true
+}
+
+// helperLiterals: the function literals written at call c as arguments for
+// call-only function parameters of a module function (`retry(func() error
+// {...})`, `withLock(func() {...})`): the callee applies them, zero or more
+// times, while it runs.
+func (p *Prog) helperLiterals(c *ssa.Call) []*ssa.MakeClosure {
+	callee := c.Call.StaticCallee()
+	if callee == nil || c.Call.IsInvoke() || !p.InModule(callee) || len(callee.Blocks) == 0 {
+		return nil
+	}
+	var out []*ssa.MakeClosure
+	off := 0
+	if callee.Signature.Recv() != nil {
+		off = 0 // receiver is Params[0] and Args[0] alike
+	}
+	for i, a := range c.Call.Args {
+		mc, isMC := a.(*ssa.MakeClosure)
+		if !isMC || i+off >= len(callee.Params) {
+			continue
+		}
+		if f, ok := mc.Fn.(*ssa.Function); !ok || f.Parent() == nil {
+			continue
+		}
+		if callOnlyParam(callee.Params[i+off]) {
+			out = append(out, mc)
+		}
+	}
+	return out
+}
+
+// AppliedLiterals lists every literal applied at call c: through a predicate
+// HOF of the standard library or through a call-only parameter of a module helper.
+func (p *Prog) AppliedLiterals(c *ssa.Call) []*ssa.Function {
+	var out []*ssa.Function
+	if f, _ := hofLiteral(c); f != nil {
+		out = append(out, f)
+	}
+	for _, mc := range p.helperLiterals(c) {
+		out = append(out, mc.Fn.(*ssa.Function))
+	}
+	return out
+}
+
+func (p *Prog) appliesLiteral(c *ssa.Call, lit *ssa.Function) bool {
+	if lit.Parent() == nil {
+		return false
+	}
+	for _, mc := range p.helperLiterals(c) {
+		if mc.Fn == ssa.Value(lit) {
+			return true
+		}
+	}
+	return false
+}
